@@ -237,7 +237,7 @@ pub fn draw_shape(rng: &mut Rng, tasks: &[Task], tier: &Tier) -> Case {
             if !tier.thorough || !rng.pct(4) {
                 continue;
             }
-        } else if t.weight > 1_500 && !rng.pct(if tier.thorough { 40 } else { 15 }) {
+        } else if (t.weight > 1_500 || t.heavy) && !rng.pct(if tier.thorough { 40 } else { 15 }) {
             continue;
         }
         break t;
@@ -319,7 +319,7 @@ pub fn draw_run(rng: &mut Rng, case: &mut Case, reference: &[(String, Vec<u8>)],
     let benign = rng.pct(75);
     if benign {
         // keep the number of scheduling steps in check for large problems
-        let min_cap = (largest / 1500).max(1);
+        let min_cap = (largest / 150).max(1);
         plan.pipe_capacity = (*rng.pick(&[1usize, 7, 64, 512, 4096, 65536, 1 << 20])).max(min_cap);
         plan.read_chunk = (*rng.pick(&[1usize, 13, 512, 65536])).max(min_cap);
         plan.short_write_pct = *rng.pick(&[0u8, 0, 10, 50]);
